@@ -50,7 +50,7 @@ func tryB(f func()) *hx.PanicInfo {
 
 func TestMain(m *testing.M) {
 	R.Require("recipients>1", "gcm", "descbc", "c1c2c3", "c1c3c2", "rsa_recipient", "non_recipient", "wrong_key", "sm2_signed_attrs", "sm2_signed_noattrs", "rsa_signed_library", "detached",
-		"mut:content", "mut:attr", "mut:digest_attr", "mut:signature", "mut:other_key_cert", "p12_pwd_nonascii", "p12_wrong_pwd", "p12_corrupt", "p12_cacerts")
+		"mut:content", "mut:attr", "mut:digest_attr", "mut:signature", "mut:other_key_cert", "p12_pwd_nonascii", "p12_wrong_pwd", "p12_corrupt", "p12_cacerts", "p12_long_pwd")
 	hx.Main(m, R)
 }
 
@@ -73,7 +73,13 @@ func initKeys(t testing.TB) {
 			t.Fatal(err)
 		}
 		rsaKeys = append(rsaKeys, k)
-		rsaCerts = append(rsaCerts, stdCert(t, &k.PublicKey, k, fmt.Sprintf("rsa %d", i)))
+		if i == 0 {
+			// certificate 0 is issued by a CA (issuer name != subject name, CA serial == leaf serial):
+			// issuer-and-serial matching must use the ISSUER name of the certificate
+			rsaCerts = append(rsaCerts, issuedStdCert(t, &k.PublicKey, fmt.Sprintf("rsa %d", i)))
+		} else {
+			rsaCerts = append(rsaCerts, stdCert(t, &k.PublicKey, k, fmt.Sprintf("rsa %d", i)))
+		}
 	}
 	p256Key, _ = ecdsa.GenerateKey(elliptic.P256(), rand.Reader)
 	p256Cert = stdCert(t, &p256Key.PublicKey, p256Key, "p256")
@@ -86,6 +92,35 @@ func initKeys(t testing.TB) {
 		}
 		stdCAs = append(stdCAs, sc)
 	}
+}
+
+var (
+	issuingKey  *rsa.PrivateKey
+	issuingCert *stdx509.Certificate
+)
+
+func issuedStdCert(t testing.TB, pub interface{}, cn string) *gx.Certificate {
+	if issuingKey == nil {
+		issuingKey, _ = rsa.GenerateKey(rand.Reader, 1024)
+		tmpl := &stdx509.Certificate{SerialNumber: big.NewInt(5555), Subject: pkix.Name{CommonName: "issuing ca"}, NotBefore: time.Unix(1600000000, 0), NotAfter: time.Unix(1900000000, 0),
+			KeyUsage: stdx509.KeyUsageCertSign, BasicConstraintsValid: true, IsCA: true}
+		der, err := stdx509.CreateCertificate(rand.Reader, tmpl, tmpl, &issuingKey.PublicKey, issuingKey)
+		if err != nil {
+			t.Fatal(err)
+		}
+		issuingCert, _ = stdx509.ParseCertificate(der)
+	}
+	tmpl := &stdx509.Certificate{SerialNumber: big.NewInt(5555), Subject: pkix.Name{CommonName: cn}, NotBefore: time.Unix(1600000000, 0), NotAfter: time.Unix(1900000000, 0),
+		KeyUsage: stdx509.KeyUsageDigitalSignature | stdx509.KeyUsageKeyEncipherment}
+	der, err := stdx509.CreateCertificate(rand.Reader, tmpl, issuingCert, pub, issuingKey)
+	if err != nil {
+		t.Fatal(err)
+	}
+	c, err := gx.ParseCertificate(der)
+	if err != nil {
+		t.Fatal(err)
+	}
+	return c
 }
 
 func stdCert(t testing.TB, pub, priv interface{}, cn string) *gx.Certificate {
@@ -106,7 +141,14 @@ func stdCert(t testing.TB, pub, priv interface{}, cn string) *gx.Certificate {
 func sm2Cert(t interface{ Fatalf(string, ...any) }, k gen.Key, cn string, ser int64) *gx.Certificate {
 	tpl := &gx.Certificate{SerialNumber: big.NewInt(ser), Subject: pkix.Name{CommonName: cn, Organization: []string{"verif"}}, NotBefore: time.Unix(1600000000, 0), NotAfter: time.Unix(1900000000, 0),
 		SignatureAlgorithm: gx.SM2WithSM3, KeyUsage: gx.KeyUsageDigitalSignature | gx.KeyUsageKeyEncipherment}
-	der, err := gx.CreateCertificate(tpl, tpl, sm2x.Pub(k.Pub), sm2x.Priv(k))
+	parent, signer := tpl, sm2x.Priv(k)
+	if ser%2 == 0 {
+		// every other certificate is issued by a CA with another name (and the same serial number as the leaf)
+		ca := gen.Key{D: big.NewInt(424243), Pub: cv.BaseMul(big.NewInt(424243))}
+		parent = &gx.Certificate{SerialNumber: big.NewInt(ser), Subject: pkix.Name{CommonName: "sm2 issuing ca", Organization: []string{"verif"}}}
+		signer = sm2x.Priv(ca)
+	}
+	der, err := gx.CreateCertificate(tpl, parent, sm2x.Pub(k.Pub), signer)
 	if err != nil {
 		t.Fatalf("CreateCertificate: %v", err)
 	}
@@ -637,7 +679,18 @@ func TestC17_LibrarySigner(t *testing.T) {
 // ------------------------------------------------------------------ PKCS#12
 
 func pwdGen() *rapid.Generator[string] {
-	return rapid.OneOf(rapid.Just(""), rapid.StringMatching(`[a-zA-Z0-9 !#]{1,16}`), rapid.SampledFrom([]string{"密码口令", "pässwörd", "Пароль1", "ｐａｓｓ"}))
+	// the PKCS#12 key derivation works on the BMPString of the password in 64-byte blocks (32 characters): lengths
+	// around one and several blocks, ASCII and not
+	long := rapid.Custom(func(t *rapid.T) string {
+		n := rapid.SampledFrom([]int{30, 31, 32, 33, 63, 64, 65, 100, 200}).Draw(t, "plen")
+		unit := rapid.SampledFrom([]string{"abcdefghij", "密码口令", "pä5"}).Draw(t, "unit")
+		var rs []rune
+		for len(rs) < n {
+			rs = append(rs, []rune(unit)...)
+		}
+		return string(rs[:n])
+	})
+	return rapid.OneOf(rapid.Just(""), rapid.StringMatching(`[a-zA-Z0-9 !#]{1,16}`), rapid.SampledFrom([]string{"密码口令", "pässwörd", "Пароль1", "ｐａｓｓ"}), long)
 }
 
 func TestC17_PKCS12(t *testing.T) {
@@ -739,6 +792,13 @@ func TestC17_PKCS12(t *testing.T) {
 		if len(pwd) > 0 {
 			rs := []rune(pwd)
 			wrongs = append(wrongs, string(rs[:len(rs)-1]))
+			if len(rs) > 32 {
+				// differs only after the first KDF block; only the first block kept
+				tail := append([]rune{}, rs...)
+				tail[len(tail)-1]++
+				wrongs = append(wrongs, string(tail), string(rs[:32]), string(rs[:32]), string(tail))
+				cl = append(cl, "p12_long_pwd")
+			}
 			c := rs[0]
 			if c >= 'a' && c <= 'z' {
 				rs[0] = c - 32
